@@ -7,4 +7,5 @@ for p in $PROPS; do
   python3 tools/check.py $p --tier $TIER 2>&1 | grep -E "VIOLATION|TOOL|holds|VIOLATED|DRIFT" | cut -c1-260
 done
 git -C /repo checkout -- . && git -C /repo status --short | head -3
+git -C /verif checkout -- evidence 2>/dev/null   # evidence of a mutated tree is not kept
 (cd /verif/harness && cargo build --release --offline 2>&1 | grep -E "^error" | head -3)
